@@ -96,7 +96,7 @@ def run(tier, replay=None):
         "candidate sets are compared as sets (duplicates and order are not fixed by the property); the regex provider is modelled for expressions of the shape [set]+",
         "hook H4 marks the begin/end of a position and each provider invocation; inserts between the marks belong to that invocation",
     ]
-    maxlen = 3 if tier == "quick" else 5
+    maxlen = 3 if tier == "quick" else 4
     cfg = os.path.join(C.WORK, "tlc", f"MC_Oov_{tier}.cfg")
     with open(cfg, "w") as f:
         f.write(f"SPECIFICATION MSpec\nCONSTANTS\n  MaxLen = {maxlen}\nINVARIANTS RunsTile RunsShareAClass RunsMaximal PrefixStable EveryPositionCovered Emit\nCHECK_DEADLOCK FALSE\n")
